@@ -139,7 +139,8 @@ def _run(ix, R):
                 if not okrem:
                     why.append('remainder is %s, not 1 - (the total that was checked)' % fmt(fl, rem))
         if not (fl.events.index(r) < fl.events.index(fa)) or not any(
-                gg.early and not gg.positive and g is not None and gg.node is g.node for gg in fa.guards):
+                gg.early and not gg.positive and g is not None and gg.node is g.node
+                for gg in tuple(fa.guards) + tuple(getattr(fa, 'validated', ()))):
             why.append('the fill is not dominated by the check')
         R.check('1.valid', 'DOM', site,
                 'any(total trace mix > 1) raises InvalidChemistryException before the remainder 1 - total is split',
